@@ -54,4 +54,22 @@ PROPS = {
         'assumptions': ['derive(PartialEq, Ord, Hash) act on the storage field only (PhantomData contributes nothing) - checked by '
                         'the recorded hasher input and cmp results on the generated cases'],
     },
+    'C12': {
+        'level_text': 'Coq theorems (Properties/C12.v): on plain lists rc is an involution sending position i to n-1-i and base b to 3-b, '
+                      'commutes with k-mer extraction (kmer_at_rc), canon(rc x)=canon x, canon is the minimum of x and rc x, palindrome '
+                      'iff x = rc x (never for odd length); transported to the 19 k-mer types (rc, min_rc, min_rc_flip incl. the '
+                      'flag-on-equality behaviour, is_palindrome) for all values by the C10 reflection sweep; extension sets: every '
+                      'Exts method over all 256 values x 2 directions x 4 bases exhaustively (vm_compute lifted by forallb_forall). '
+                      'Lmer/DnaString/slice rc are transported in C17/C14/C15 and additionally compared here at API level.',
+        'level_note': 'Trusted: Coq kernel+VM; transcription of lib.rs Exts and kmer.rs into the models (pins for every mask/shift); '
+                      'the container cross-checks (Lmer, DnaString, slices vs the list rc) in this check are differential runs '
+                      'against the list specification, their proofs belong to C14/C15/C17. No axioms.',
+        'technique': 'list induction (Coq) + exhaustive finite sweep (Exts) + reflection sweep (k-mers), differential correspondence',
+        'rule': 'all 256 Exts values x every method/direction/base (exhaustive; merge/add partners sampled in quick, all 256 in thorough); '
+                'k-mer rc/min_rc/is_palindrome on structured values incl. palindromes for all 19 types; containers at lengths '
+                '0,1,2,3,27..33,59..65,91..97,127..129,200 + random: DnaString, slices, Lmer1/2/3 rc and k-mers of the rc for 7 k-mer '
+                'types; non-trivial = non-homopolymer sequence / non-empty extension set',
+        'assumptions': ['Exts methods are as transcribed in coq/Packed/ExtsModel.v with masks from the pins'],
+        'exhaustive_part': 'Exts: 256 values',
+    },
 }
